@@ -3,16 +3,18 @@ import Fv.Lemmas.TopicStep
 the receivers' own subscription sets agree. -/
 namespace Fv.Chan.Topic
 
-/-- per live receiver `x` with id `r` -/
-def RxOk (s : St) (r : Nat) (x : Rx) : Prop :=
+/-- per live receiver `x` with id `r`. The second and third clause need a history without
+receiver `close()`; they are guarded by `P` (`P := True` for such histories, `P := False` for
+arbitrary ones, where only the first and last clause are claimed). -/
+def RxOk (P : Prop) (s : St) (r : Nat) (x : Rx) : Prop :=
   (x.hasDisp = false → dispAlive s = false) ∧
-  (x.hasDisp = true → x.closed = false) ∧
-  (dispAlive s = true → ∀ t, (t, r) ∈ s.regs → t ∈ x.subs ∧ x.hasDisp = true) ∧
+  (P → x.hasDisp = true → x.closed = false) ∧
+  (P → dispAlive s = true → ∀ t, (t, r) ∈ s.regs → t ∈ x.subs ∧ x.hasDisp = true) ∧
   (x.hasDisp = true → dispAlive s = true → ∀ t, t ∈ x.subs → (t, r) ∈ s.regs)
 
-structure RI (s : St) : Prop where
+structure RI (P : Prop) (s : St) : Prop where
   inRange : ∀ t r, (t, r) ∈ s.regs → r < s.rxs.length
-  ok : ∀ r x, s.rxs[r]? = some x → x.live = true → RxOk s r x
+  ok : ∀ r x, s.rxs[r]? = some x → x.live = true → RxOk P s r x
 
 /-- what the frame lemma needs from the old entry `x` for a new live entry `y` -/
 def CoreLe (x y : Rx) : Prop :=
@@ -22,7 +24,7 @@ def CoreLe (x y : Rx) : Prop :=
 theorem RI_frame (s s' : St) (hr : s'.regs = s.regs) (hlen : s.rxs.length ≤ s'.rxs.length)
     (hd : dispAlive s' = true → dispAlive s = true)
     (hx : ∀ (r : Nat) (y : Rx), s'.rxs[r]? = some y → y.live = true → ∃ x, s.rxs[r]? = some x ∧ CoreLe x y)
-    (h : RI s) : RI s' := by
+    {P : Prop} (h : RI P s) : RI P s' := by
   refine ⟨fun t r hm => Nat.lt_of_lt_of_le (h.inRange t r (hr ▸ hm)) hlen, ?_⟩
   intro r y hy hl
   obtain ⟨x, hx1, hxl, hxd, hxs, hxc⟩ := hx r y hy hl
@@ -32,11 +34,11 @@ theorem RI_frame (s s' : St) (hr : s'.regs = s.regs) (hlen : s.rxs.length ≤ s'
     cases hda : dispAlive s' with
     | false => rfl
     | true => rw [hxd] at h1; rw [a h1] at hd; exact absurd (hd hda) (by simp)
-  · intro h1
+  · intro hP h1
     cases hc : y.closed with
     | false => rfl
-    | true => rw [hxd] at h1; rw [b h1] at hxc; exact absurd (hxc hc) (by simp)
-  · intro h2 t ht; rw [hr] at ht; rw [hxd, hxs]; exact c (hd h2) t ht
+    | true => rw [hxd] at h1; rw [b hP h1] at hxc; exact absurd (hxc hc) (by simp)
+  · intro hP h2 t ht; rw [hr] at ht; rw [hxd, hxs]; exact c hP (hd h2) t ht
   · intro h1 h2 t ht; rw [hr]; rw [hxd] at h1; rw [hxs] at ht; exact d h1 (hd h2) t ht
 
 theorem dispAlive_congr (s s' : St) (h : s'.txs = s.txs) : dispAlive s' = dispAlive s := by
@@ -49,7 +51,7 @@ theorem isLive_of_get (rxs : List Rx) (q : Nat) (y : Rx) (hy : rxs[q]? = some y)
   simp [isLive, hy]
 
 theorem RI_subscribeCore (s : St) (r : Nat) (t : Topic) (x0 : Rx) (hx0 : s.rxs[r]? = some x0) (hl0 : x0.live = true)
-    (h : RI s) : RI (subscribeCore s r t) := by
+    {P : Prop} (h : RI P s) : RI P (subscribeCore s r t) := by
   by_cases hm : t ∈ x0.subs
   · rw [subscribeCore_of_mem s r t x0 hx0 hm]; exact h
   have hrxs := subscribeCore_rxs_of_not_mem s r t x0 hx0 hm
@@ -73,9 +75,9 @@ theorem RI_subscribeCore (s : St) (r : Nat) (t : Topic) (x0 : Rx) (hx0 : s.rxs[r
         simp only [if_true, hx0, Option.map_some, Option.some.injEq] at hy
         subst hy
         refine ⟨fun h1 => by simp [hu'.1] at h1, b0, ?_, ?_⟩
-        · intro _ u hq
+        · intro hP _ u hq
           rcases (hmem u r).1 hq with ⟨hq, _⟩ | hq
-          · exact ⟨List.mem_append_left _ (c0 hu'.2 u hq).1, hu'.1⟩
+          · exact ⟨List.mem_append_left _ (c0 hP hu'.2 u hq).1, hu'.1⟩
           · cases hq; exact ⟨by simp, hu'.1⟩
         · intro _ _ u hq
           simp only [List.mem_append, List.mem_singleton] at hq
@@ -85,9 +87,9 @@ theorem RI_subscribeCore (s : St) (r : Nat) (t : Topic) (x0 : Rx) (hx0 : s.rxs[r
       · simp only [hq, if_false] at hy
         obtain ⟨a, b, c, d⟩ := h.ok q y hy hl
         refine ⟨a, b, ?_, ?_⟩
-        · intro h2 u hm'
+        · intro hP h2 u hm'
           rcases (hmem u q).1 hm' with ⟨hm', _⟩ | hm'
-          · exact c h2 u hm'
+          · exact c hP h2 u hm'
           · cases hm'; exact absurd rfl hq
         · intro h1 h2 u hm'
           exact (hmem u q).2 (Or.inl ⟨d h1 h2 u hm', Or.inr (by rw [isLive_of_get _ _ _ hy]; exact hl)⟩)
@@ -102,7 +104,7 @@ theorem RI_subscribeCore (s : St) (r : Nat) (t : Topic) (x0 : Rx) (hx0 : s.rxs[r
       simp only [if_true, hx0, Option.map_some, Option.some.injEq] at hy
       subst hy
       refine ⟨a0, b0, ?_, ?_⟩
-      · intro h2 u hq; exact ⟨List.mem_append_left _ (c0 h2 u hq).1, (c0 h2 u hq).2⟩
+      · intro hP h2 u hq; exact ⟨List.mem_append_left _ (c0 hP h2 u hq).1, (c0 hP h2 u hq).2⟩
       · intro h1 h2
         have : upgradable s x0 = true := (upgradable_iff s x0).2 ⟨h1, h2⟩
         rw [hu] at this; cases this
@@ -110,7 +112,7 @@ theorem RI_subscribeCore (s : St) (r : Nat) (t : Topic) (x0 : Rx) (hx0 : s.rxs[r
       exact h.ok q y hy hl
 
 theorem RI_unsubscribeCore (s : St) (r : Nat) (t : Topic) (x0 : Rx) (hx0 : s.rxs[r]? = some x0) (hl0 : x0.live = true)
-    (h : RI s) : RI (unsubscribeCore s r t) := by
+    {P : Prop} (h : RI P s) : RI P (unsubscribeCore s r t) := by
   by_cases hm : t ∈ x0.subs
   · have hrxs : (unsubscribeCore s r t).rxs =
         modAt s.rxs r (fun x => { x with subs := x.subs.filter (fun u => u != t) }) := by
@@ -132,11 +134,11 @@ theorem RI_unsubscribeCore (s : St) (r : Nat) (t : Topic) (x0 : Rx) (hx0 : s.rxs
         simp only [if_true, hx0, Option.map_some, Option.some.injEq] at hy
         subst hy
         refine ⟨a0, b0, ?_, ?_⟩
-        · intro _ u hq
+        · intro hP _ u hq
           obtain ⟨hq1, hq2⟩ := (hmem u r).1 hq
           refine ⟨?_, hu'.1⟩
           simp only [List.mem_filter, bne_iff_ne, ne_eq]
-          refine ⟨(c0 hu'.2 u hq1).1, ?_⟩
+          refine ⟨(c0 hP hu'.2 u hq1).1, ?_⟩
           rcases hq2 with hq2 | ⟨_, hq2⟩
           · exact hq2
           · exact absurd rfl hq2
@@ -145,7 +147,7 @@ theorem RI_unsubscribeCore (s : St) (r : Nat) (t : Topic) (x0 : Rx) (hx0 : s.rxs
           exact (hmem u r).2 ⟨d0 hu'.1 hu'.2 u hq.1, Or.inl hq.2⟩
       · simp only [hq, if_false] at hy
         obtain ⟨a, b, c, d⟩ := h.ok q y hy hl
-        refine ⟨a, b, fun h2 u hm' => c h2 u ((hmem u q).1 hm').1, ?_⟩
+        refine ⟨a, b, fun hP h2 u hm' => c hP h2 u ((hmem u q).1 hm').1, ?_⟩
         intro h1 h2 u hm'
         exact (hmem u q).2 ⟨d h1 h2 u hm', Or.inr ⟨by rw [isLive_of_get _ _ _ hy]; exact hl, fun e => hq e.symm⟩⟩
     | false =>
@@ -159,8 +161,8 @@ theorem RI_unsubscribeCore (s : St) (r : Nat) (t : Topic) (x0 : Rx) (hx0 : s.rxs
         simp only [if_true, hx0, Option.map_some, Option.some.injEq] at hy
         subst hy
         refine ⟨a0, b0, ?_, ?_⟩
-        · intro h2 u hq
-          have : upgradable s x0 = true := (upgradable_iff s x0).2 ⟨(c0 h2 u hq).2, h2⟩
+        · intro hP h2 u hq
+          have : upgradable s x0 = true := (upgradable_iff s x0).2 ⟨(c0 hP h2 u hq).2, h2⟩
           rw [hu] at this; cases this
         · intro h1 h2
           have : upgradable s x0 = true := (upgradable_iff s x0).2 ⟨h1, h2⟩
